@@ -100,6 +100,9 @@ for h, props, cl in (
 ):
     k(h, *AN, props, "contract", function="MappedTimelineAnimator::" + h.split("_")[0], clause=cl, assumes=[AD], timeout=600)
     K[-1]["flags"] = ANF
+k("builder_contract", *AN, ["C05", "C04"], "contract", function="StateAnimatorBuilder::{new,from_state,from_values,on,build} + EnumMap MapLike",
+  clause="build hands the animator exactly the configured initial state/values (Default otherwise) and a timeline for exactly the states passed to on (latest wins); only the initial state's timeline is blended, from the initial values", assumes=[AD], timeout=600)
+K[-1]["flags"] = ANF
 k("cover_inv_states", *AN, ["C04", "C05", "C06", "C07"], "cover", timeout=600)
 K[-1]["flags"] = ANF
 k("canary_must_fail", *AN, ["C04", "C05", "C06", "C07"], "canary", timeout=600)
@@ -150,3 +153,10 @@ for n in ("vec2", "dvec2", "ivec2", "uvec2", "i64vec2", "u64vec2", "vec3", "dvec
     k("%s_componentwise" % n, *GL, ["C14"], "contract", function="<glam::%s as Lerp>::lerp" % n, solver="cvc5",
       clause="every component of the result is the scalar lerp of the corresponding components (bit-for-bit), all x in [0,1]")
     K[-1]["features"] = "glam"
+
+for _h in open(os.path.join(VERIF, "contracts/kani/mina/family_harnesses.txt")).read().split():
+    k(_h, "PLACEHOLDER", "mina", "tests/verif_derive_family.rs", ["C17", "C08", "C09"], "contract", tier="thorough", function="derive(Animate) expansion",
+      clause="generated family shape: update = prepare_frame + assign-iff-Some per animated field, untouched otherwise; build/start_with wiring; accessors",
+      bound="struct family generated by tools/gen_shapes.py: all 8 #[animate] subsets of a 3-field struct + 12 pseudo-random shapes (1..6 fields)", tests=True, timeout=600)
+    K[-1]["harness"] = _h
+    K[-1]["id"] = "family::" + _h
